@@ -1252,7 +1252,7 @@ func Run(cfg *common.Config) (*common.Report, error) {
 		return rep, d.writeShards()
 	}
 	fam := families()
-	nDoc := cfg.Pick(60, 1500)
+	nDoc := cfg.Pick(45, 500)
 	for i := 0; i < nDoc; i++ {
 		doc := d.gen.Valid(1 + cfg.Rng.Intn(3))
 		for u, b := range d.gen.CtxURLs {
@@ -1268,7 +1268,7 @@ func Run(cfg *common.Config) (*common.Report, error) {
 			rep.Sample(map[string]any{"stream": "docgen", "doc": string(doc.Bytes), "hasher": hi, "cfg": in.Cfg})
 		}
 	}
-	nCraft := cfg.Pick(40, 1000)
+	nCraft := cfg.Pick(30, 300)
 	for i := 0; i < nCraft; i++ {
 		hi := i % len(fam)
 		spec := d.craftedSpec(fam[hi].Prime())
